@@ -59,6 +59,10 @@ NOTES = {
  "C14-7": "round 3", "C14-8": "round 3; first missed; STATE-LEVEL (with the narrowed Share exemption) joined C14", "C14-9": "round 3; first missed by C14 (reported by C05); SEQUENTIAL-INNER-GUARD joined C14",
  "C17-7": "round 3; first missed by C17 (reported by C09); the context rules joined C17", "C17-8": "round 3", "C17-9": "round 3; first missed by C17 (reported by C03); TEARDOWN-ALL-RUN joined C17",
  "C19-7": "round 3", "C19-8": "round 3", "C19-9": "round 3; first missed; BRACKET-PLACEMENT added",
+ "C15-7": "round 3; first missed; FINALIZER-DISCIPLINE checks the iteration order (and joined C15)", "C15-8": "round 3", "C15-9": "round 3; first missed; READ-AFTER-WAIT added",
+ "C16-7": "round 3; first missed by C16 (reported by C09/C14); CTX-PROVENANCE joined C16", "C16-8": "round 3", "C16-9": "round 3; first missed; TIME-SHIFT-VIA-TIMER added",
+ "C18-7": "round 3; first missed; HOMONYM-CALLED added", "C18-8": "round 3; NOT reported: NewIOReaderLine rewritten with bufio.Scanner (64 KiB token limit instead of ReadLine's fragments) - a limit inside the standard library, not decided", "C18-9": "round 3",
+ "C20-7": "round 3; first missed; NO-DUPLICATE-FORWARD added", "C20-8": "round 3; NOT reported: Take(1) delegates to Head (an empty window errors instead of completing) - which terminal an empty input yields, value-level", "C20-9": "round 3; first missed; GET-OR-CREATE added",
  "C20-4": "round 2", "C20-5": "round 2", "C20-6": "round 2; NOT reported: core Interval re-armed on absolute deadlines, so ticks missed by a slow observer are emitted back to back (a burst of windows for the native limiter) - timing / quota, not decided",
  "C16-1": "first missed; WATCHDOG-REARM added", "C16-2": "first missed; STATE-LEVEL added to C16 (the counter of a periodic source is per-subscription state)",
  "C20-2": "first missed by C20 (reported by C12): a change to core GroupBy; C20 now re-checks the core premises of the native limiter", "C20-3": "first missed by C20 (reported by C10/C02): a change to the core unicast subject; C20 now re-checks the core premises of the native limiter",
